@@ -75,6 +75,8 @@ class ExGen:
         rng = self.rng
         if rng.random() < 0.25:
             dt = self.G.dt()
+            if rng.random() < 0.15:
+                return ["arr", dt, r, c, [[0] * c for _ in range(r)]]      # an all-zero array (x + 0-like operands)
             return ["arr", dt, r, c, self.G.mat(dt, r, c)]
         return ["op", self.G.op(r, c, rng.choice([0, 0, 1, 1, 2]))]
 
@@ -276,12 +278,11 @@ def classify(e, ans, real):
     bound = treecheck.F32_BOUND if any(d in ("f32", "c64") for d in leaf_dts(e)) else treecheck.F64_BOUND
     if ab * (2 ** (2 * div_exponent(e))) >= bound:
         return "inexact", ""
-    clauses = []
-    if has_sdiv(e):
-        clauses.append("scalar-divided-by-operator")
-    if any(s.get("cplx") for s in scal_kinds(e)) and spec != {"kind": "none"}:
-        # only relevant when model and expression disagree; harmless otherwise
-        clauses.append("complex-scalar-real-operator")
+    # the named clauses the expression runs into come from the Lean side (`Ex.clauses`: a `c / A` node; a node where
+    # `mul(A, c)` meets a complex scalar and a real-dtype operator) -- the hypotheses of C03_sound_partial, decided exactly
+    clauses = list(ans.get("clauses", []))
+    if has_sdiv(e) != ("scalar-divided-by-operator" in clauses):
+        return "driver-error", "clause list of the driver disagrees with the expression (sdiv)"
     # real vs code
     if code["kind"] == "err":
         rc = real["kind"] == "err" and (real["value"] == code["value"] or code["value"] == "unsupported")
@@ -293,8 +294,11 @@ def classify(e, ans, real):
         cs = code["kind"] == "err"
         rs = real["kind"] == "err"
     else:
-        cs = code["kind"] != "err" and all(code.get(k) == spec[k] for k in ("rows", "cols", "value"))
-        rs = real["kind"] != "err" and all(real.get(k) == spec[k] for k in ("rows", "cols", "value"))
+        # shape, entries, dtype and array-versus-operator against the INDEPENDENT specification
+        # (`Ex.meaning`, `Ex.dtypeSpec`, `Ex.yieldsArr`): real = code = spec on all of them
+        want_kind = "arr" if spec.get("isarr") else "op"
+        cs = code["kind"] == want_kind and all(code.get(k) == spec[k] for k in ("rows", "cols", "value", "dtype"))
+        rs = real["kind"] == want_kind and all(real.get(k) == spec[k] for k in ("rows", "cols", "value", "dtype"))
     if clauses and "scalar-divided-by-operator" in clauses:
         cs = False   # c / A is c * inverse(A); the code model (and cola) build A * (1/c)
         rs = False
@@ -303,6 +307,12 @@ def classify(e, ans, real):
     if rs:
         return "stale-model", "real agrees with the matrix expression but not with the code model"
     why = []
+    if real["kind"] != "err" and spec["kind"] != "none":
+        bad = [k for k in ("rows", "cols", "value", "dtype") if real.get(k) != spec[k]]
+        if real["kind"] != ("arr" if spec.get("isarr") else "op"):
+            bad.append("kind")
+        if bad:
+            why.append("differs from the matrix expression on " + ", ".join(bad))
     if real["kind"] == "err":
         why.append(f"raised {real['value']}: {real.get('msg', '')}")
     elif spec["kind"] == "none":
@@ -332,6 +342,40 @@ def shrink(e, fails):
             break
         cur = nxt
     return cur
+
+
+def neighbours(e, G, k=16):
+    """variants of an expression with the same form: operator leaves varied as in treecheck.neighbours, plain arrays with
+    another dtype (same or fresh payload) or another shape class"""
+    rng = G.rng
+
+    def vary(x):
+        t = x[0]
+        if t == "op":
+            vs = treecheck.neighbours(x[1], G, k=1)
+            return ["op", vs[0]] if vs and rng.random() < 0.7 else x
+        if t == "arr":
+            r = rng.random()
+            dt = rng.choice(gen.DTYPES)
+            if r < 0.4:
+                cplx_payload = any(isinstance(v, list) and v[1] != 0 for row in x[4] for v in row)
+                if cplx_payload and dt in ("f32", "f64"):
+                    dt = "c128"
+                return ["arr", dt, x[2], x[3], x[4]]           # same entries, other dtype
+            if r < 0.7:
+                return ["arr", dt, x[2], x[3], G.mat(dt, x[2], x[3])]
+            return x
+        return [t] + [vary(y) if isinstance(y, list) and y and isinstance(y[0], str) else y for y in x[1:]]
+    out, seen = [], {common.canon(e)}
+    for _ in range(4 * k):
+        v = vary(e)
+        key = common.canon(v)
+        if key not in seen:
+            seen.add(key)
+            out.append(v)
+        if len(out) >= k:
+            break
+    return out
 
 
 def run(ctx):
@@ -365,24 +409,56 @@ def run(ctx):
         exprs = []
         if os.path.exists(CORPUS):
             exprs += [json.loads(l) for l in open(CORPUS) if l.strip()]
-        n = 400 if not ctx.thorough else 12000
+        n = 600 if not ctx.thorough else 12000
         for _ in range(n):
-            if rng.random() < 0.15:
-                # expressions around a special operator (3-4 factor Kronecker products, multiplicities, Hermitian composites)
+            if rng.random() < 0.2:
+                # expressions around a special operator (3-4 factor Kronecker products of pairwise different non-square
+                # extents, BlockDiag with multiplicities, complex Hermitian composites, wrapped Gram products) and
+                # Kronecker products assembled by the algebra itself (flattening of nested cola.kron calls)
+                form = rng.choice(["axpy", "matarr", "arrmat", "densify", "kron", "sub", "scaled", "kron3", "kron3", "opop"])
+                if form == "kron3":
+                    pool = [(1, 2), (2, 1), (2, 3), (3, 2), (1, 3), (3, 1), (2, 2)]
+                    dims = rng.sample(pool, rng.choice([3, 3, 4]))
+                    while max(np.prod([d[0] for d in dims]), np.prod([d[1] for d in dims])) > 36:
+                        dims = rng.sample(pool, 3)
+                    leaves = [EG.leaf(a, b) for a, b in dims]
+                    K = leaves[0]
+                    for L in leaves[1:]:
+                        K = ["kron", K, L] if rng.random() < 0.6 else ["kron", L, K]
+                    C = int(np.prod([gen.shape_of(x[1])[1] if x[0] == "op" else x[3] for x in leaves]))
+                    R = int(np.prod([gen.shape_of(x[1])[0] if x[0] == "op" else x[2] for x in leaves]))
+                    w = rng.choice(["matarr", "arrmat", "axpy", "neg", "plain"])
+                    dt = G.dt()
+                    if w == "matarr":
+                        exprs.append(["matmul", K, ["arr", dt, C, 2, G.mat(dt, C, 2)]])
+                    elif w == "arrmat":
+                        exprs.append(["matmul", ["arr", dt, 2, R, G.mat(dt, 2, R)], K])
+                    elif w == "axpy":
+                        exprs.append(["densify", ["add", ["smul", EG.scal(), K], K]])
+                    elif w == "neg":
+                        exprs.append(["densify", ["neg", K]])
+                    else:
+                        exprs.append(K)
+                    continue
                 S = G.special(rng.choice([1, 2]))
                 r, c = gen.shape_of(S)
-                form = rng.choice(["axpy", "matarr", "densify", "kron", "sub", "scaled"])
                 if form == "axpy":
                     exprs.append(["add", ["smul", EG.scal(), ["op", S]], ["op", S]])
                 elif form == "matarr":
                     dt = G.dt()
                     exprs.append(["matmul", ["op", S], ["arr", dt, c, 2, G.mat(dt, c, 2)]])
+                elif form == "arrmat":
+                    dt = G.dt()
+                    exprs.append(["matmul", ["arr", dt, 2, r, G.mat(dt, 2, r)], ["op", S]])
                 elif form == "densify":
                     exprs.append(["densify", ["add", ["op", S], ["op", S]]])
                 elif form == "kron":
                     exprs.append(["kron", ["op", S], EG.leaf(rng.choice([1, 2]), rng.choice([1, 2]))])
                 elif form == "sub":
                     exprs.append(["sub", ["op", S], EG.leaf(r, c)])
+                elif form == "opop":
+                    exprs.append(["matmul", ["op", S], EG.leaf(c, rng.choice([1, 2, 3]))] if rng.random() < 0.5
+                                 else ["matmul", EG.leaf(rng.choice([1, 2, 3]), r), ["op", S]])
                 else:
                     exprs.append(["muls", ["matmul", ["op", S], EG.leaf(c, rng.choice([1, 2]))], EG.scal()])
                 continue
@@ -409,6 +485,10 @@ def run(ctx):
                     for c in det:
                         common.known_finding(ctx, c, known[c]["what"])
             elif st == "violation":
+                stats["violations_seen"] += 1
+                if stats["violations_seen"] > treecheck.MAX_REPORTS:
+                    continue
+
                 def fails(cands):
                     if not cands:
                         return None
@@ -417,14 +497,31 @@ def run(ctx):
                             return ee
                     return None
                 try:
-                    small = shrink(e, fails)
+                    small = shrink(e, fails) if stats["violations_seen"] <= treecheck.MAX_SHRINKS else e
                 except Exception:  # noqa: BLE001
                     small = e
                 (e2, a2, r2, s2, d2) = evaluate([small])[0]
                 common.violation(ctx, {"expr": small, "expected_matrix": a2.get("spec"), "real": r2, "detail": d2, "original_expr": e})
             elif st == "stale-model":
-                common.violation(ctx, {"expr": e, "model": a.get("code"), "spec": a.get("spec"), "real": real,
-                                       "broken": "correspondence stream of the algebra code model"}, no_input=True)
+                # the real code left the code model without (on this input) contradicting the matrix expression: search the
+                # neighbourhood of the input for an expression on which it does
+                stats["stale_seen"] += 1
+                found = None
+                if stats["stale_seen"] <= treecheck.MAX_NEIGHBOURHOODS:
+                    try:
+                        for (ee, aa, rr, s2, d2) in evaluate(neighbours(e, G)):
+                            if s2 == "violation":
+                                found = (ee, aa, rr, d2)
+                                break
+                    except Exception as ex:  # noqa: BLE001
+                        ctx.notes.append(f"neighbourhood search failed: {ex}")
+                if found is not None:
+                    common.violation(ctx, {"expr": found[0], "expected_matrix": found[1].get("spec"), "real": found[2], "detail": found[3],
+                                           "found_near": e,
+                                           "why": "found in the neighbourhood of an expression on which the real code disagrees with the code model"})
+                elif stats["stale_seen"] <= treecheck.MAX_REPORTS:
+                    common.violation(ctx, {"expr": e, "model": a.get("code"), "spec": a.get("spec"), "real": real,
+                                           "broken": "correspondence stream of the algebra code model"}, no_input=True)
             elif st == "driver-error":
                 ctx.notes.append(f"driver error: {det}")
     if gate_err is not None and not ctx.violations:
@@ -433,6 +530,7 @@ def run(ctx):
            "expression_forms": dict(forms), "scalar_kinds": dict(scal_hist), "samples": samples,
            "rule": "random algebraic expressions (depth <= 4) over operator trees and plain arrays, all scalar kinds, ~8% shape-mismatched "
                    "operand pairs; distinct = canonical JSON of the expression; non-trivial = at least one algebraic operation",
-           "compare": "exact (Gaussian-rational payloads, dyadic scalars); values, shapes, dtypes and kind trees of the built operator"}
+           "compare": "exact (Gaussian-rational payloads, dyadic scalars); real vs code: values, shapes, dtypes, kind trees, annotations; "
+                      "code vs spec: values, shapes, dtype (Ex.dtypeSpec) and array-vs-operator (Ex.yieldsArr)"}
     common.write_evidence(ctx, gate, cov, assumptions=["c / A is compared against c * inverse(A) only through the recorded clause"])
     print(json.dumps({"outcomes": dict(stats), "distinct_nontrivial": len(distinct), "gate": (gate or {}).get("obligations")}))
